@@ -361,6 +361,9 @@ func (c *compiler) compileType(y *Type, parent Leafable, isUnion bool) error {
 			return fmt.Errorf("%s - %s path cannot be resolved", SchemaPath(parent), y.ident)
 		} else if hasType, isLeaf := resolvedMeta.(HasType); !isLeaf {
 			return fmt.Errorf("%s - %s path does not lead to a leaf or leaf-list", SchemaPath(parent), y.ident)
+		} else if hasType.Type() == nil {
+			// (a leaf of an imported module, which nothing else looks at)
+			return fmt.Errorf("%s - %s path leads to %s which has no type", SchemaPath(parent), y.ident, SchemaPath(resolvedMeta))
 		} else {
 			y.delegate = hasType.Type()
 			// leafrefs that point at each other in a circle have no type in the end
